@@ -91,8 +91,11 @@ def judge(sim, rec, res, case):
                  '%s: %s' % (uid, r['order']))
 
         if len(kinds) == 0:
-            if 'watchdog' in sim.notes and sim.alive(r['pid']):
-                res.inconc('watchdog fired while %s still runs' % uid)
+            if 'watchdog' in sim.notes:
+                # the hard wall-clock limit fired while the history was still
+                # moving (a loaded machine): no verdict
+                res.inconc('watchdog fired before the history went idle '
+                           '(%s not handed over yet)' % uid)
             elif late and serial:
                 viol('late-cancel-unserialisable-task-left-behind',
                      '%s: cancel during spawn -> %s; errors %s'
